@@ -26,7 +26,7 @@ from copy import copy
 from functools import wraps
 from pathlib import Path
 from textwrap import indent
-from threading import Thread
+from threading import local as _thread_local, Thread
 from typing import (
     Any,
     Callable,
@@ -296,6 +296,11 @@ def _maybe_broadcast_other(op: str, n_other: int = 1):
         return new_func
 
     return wrap_func
+
+
+# The (tensordict, _is_shared, _is_memmap) triplets cleared by the unlock_() call that is running in this thread:
+# unlock_() learns that it must be refused only after _propagate_unlock went through the tree, and puts them back then.
+_UNLOCK_UNDO = _thread_local()
 
 
 def _lock_graph(td):
@@ -13329,8 +13334,7 @@ class TensorDictBase(MutableMapping):
         # if we end up here, we can clear the graph associated with this td
         self._is_locked = False
 
-        self._is_shared = False
-        self._is_memmap = False
+        self._unset_shared_memmap()
 
         sub_tds = []
         for value in self.values():
@@ -13338,6 +13342,15 @@ class TensorDictBase(MutableMapping):
                 sub_tds.extend(value._propagate_unlock())
                 sub_tds.append(value)
         return sub_tds
+
+    def _unset_shared_memmap(self):
+        # an unlocked tensordict is not shared / memory-mapped anymore; the previous flags are
+        # recorded for the unlock_() call that is running, which restores them if it is refused
+        undo = getattr(_UNLOCK_UNDO, "flags", None)
+        if undo is not None:
+            undo.append((self, self._is_shared, self._is_memmap))
+        self._is_shared = False
+        self._is_memmap = False
 
     def _check_unlock(self, first_attempt=True):
         if not first_attempt:
@@ -13377,6 +13390,8 @@ class TensorDictBase(MutableMapping):
 
         See :meth:`~.lock_` for more details.
         """
+        previous = getattr(_UNLOCK_UNDO, "flags", None)
+        _UNLOCK_UNDO.flags = undo = []
         try:
             sub_tds = self._propagate_unlock()
             for sub_td in sub_tds:
@@ -13385,9 +13400,16 @@ class TensorDictBase(MutableMapping):
             self._check_unlock()
         except Exception:
             # whatever went wrong (including a failure while building the error message),
-            # the flags cleared by _propagate_unlock must be restored
+            # the flags cleared by _propagate_unlock must be restored: the lock ...
             self.lock_()
+            # ... and the shared / memmap status of every tensordict of the tree (in reverse:
+            # of a tensordict that was reached twice, the first record is the one to restore)
+            for td, is_shared, is_memmap in reversed(undo):
+                td._is_shared = is_shared
+                td._is_memmap = is_memmap
             raise
+        finally:
+            _UNLOCK_UNDO.flags = previous
         return self
 
     # Conversion (device or dtype)
